@@ -127,6 +127,8 @@ func judge(c Case, w *vkit.W) {
 		out("DefaultFormatter(prefix)", string(pb), "x="+want)
 		pb, _ = date.DefaultFormatter(append(make([]byte, 0, 64), "date="...), orig, f) // a prefix with room behind it
 		out("DefaultFormatter(prefix with spare capacity)", string(pb), "date="+want)
+		pb, _ = date.DefaultFormatter([]byte("2020-08-05,"), orig, f) // a buffer that already holds a date
+		out("DefaultFormatter(prefix holding a date)", string(pb), "2020-08-05,"+want)
 		if b2, err := date.DefaultFormatter(nil, orig, f); err == nil {
 			w.Owned(c, "DefaultFormatter(nil)", b2, want, func() ([]byte, error) { return date.DefaultFormatter(nil, orig, f) })
 		}
